@@ -264,8 +264,15 @@ pub fn plan(prop: &str, tier: Tier) -> Option<Plan> {
     let mut assumptions = assumptions;
     // the nightly `unstable_dropck_eyepatch` configuration (Arc's other Drop impl) joins the lifecycle / layout /
     // constructor / uninit plans when its binary was built (./check builds it if the nightly toolchain works)
-    if std::env::var_os("TV_BIN_EYEP").is_some() && matches!(prop, "C01" | "C05" | "C06" | "C15") {
+    if std::env::var_os("TV_BIN_EYEP").is_some() && matches!(prop, "C01" | "C05" | "C06" | "C15" | "C02" | "C03" | "C09") {
         match prop {
+            "C02" => {
+                jobs.push(jobb(sched_engine("tok8", "C02", 24), if q { 20_000 } else { 1_000_000 }, "eyep"));
+                jobs.push(jobb(sched_engine("plain8", "C02", 24), if q { 6_000 } else { 300_000 }, "eyep"));
+                jobs.push(jobb(sched_thin_engine("8b/8", "C02", 24), if q { 6_000 } else { 300_000 }, "eyep"));
+            }
+            "C03" => jobs.push(jobb(sched_engine("tok8", "C03", 24), if q { 15_000 } else { 1_000_000 }, "eyep")),
+            "C09" => jobs.push(jobb(sched_engine("tok8", "C09", 24), if q { 15_000 } else { 1_000_000 }, "eyep")),
             "C01" => {
                 jobs.push(jobb(sized_engine("tok8", "C01", if q { 48 } else { 160 }), if q { 3000 } else { 120_000 }, "eyep"));
                 jobs.push(jobb(sized_engine("tokz", "C01", if q { 48 } else { 160 }), if q { 1000 } else { 40_000 }, "eyep"));
